@@ -196,6 +196,7 @@ class ALower:
         self.mp = None
         self.pd = None
         self.named = named or {}
+        self.conds = {}
 
     def bad(self, msg, node):
         raise mc.Unsupported('%s: %s: %s' % (self.fn, msg, mc.show(node)[:300]))
@@ -209,6 +210,12 @@ class ALower:
             if st[0] == 'if' and not st[1] and st[4] is None and nonempty(st[3][1] if st[3][0] == 'block' else [st[3]]) == [('continue',)] \
                     and st[2] == call0(('member', ('id', 'cls'), 'used_slots', False), 'empty'):
                 out.append('(AIfUsedNonEmpty %s)' % self.seq(sts[i + 1:]))       # if (used_slots.empty()) continue; REST
+                break
+            if st[0] == 'if' and not st[1] and st[4] is None and nonempty(st[3][1] if st[3][0] == 'block' else [st[3]]) == [('continue',)] and i + 1 < len(sts):
+                # if (c) continue; REST     is     if (!c) { REST }      (REST runs to the end of the loop body)
+                c = st[2]
+                neg = c[2] if c[0] == 'un' and c[1] == '!' else ('bin', {'==': '!=', '!=': '=='}[c[1]], c[2], c[3]) if c[0] == 'bin' and c[1] in ('==', '!=') else ('un', '!', c)
+                out.append(self.s(('if', False, neg, ('block', sts[i + 1:]), None)))
                 break
             # auto first_slot = cls.used_slots.find_first(); cls.first_slot = first_slot == npos ? 0 : first_slot;
             if (st[0] == 'decl' and len(st[2]) == 1 and st[2][0][1] == call0(('member', ('id', 'cls'), 'used_slots', False), 'find_first') and i + 1 < len(sts)):
@@ -242,6 +249,10 @@ class ALower:
             return 'ANextFromBase'
         if k == 'decl' and len(st[2]) == 1 and st[2][0][1] is not None and st[2][0][1][0] == 'lambda':
             self.named[st[2][0][0]] = st[2][0][1]
+            return 'ASkip'
+        if k == 'decl' and len(st[2]) == 1 and st[1] in ('const bool', 'bool', 'const auto', 'auto') and st[2][0][1] is not None \
+                and self.fn == 'assign_slots' and self.tree_cond(st[2][0][1]) is not None:
+            self.conds[st[2][0][0]] = self.tree_cond(st[2][0][1])       # a name for the test (a pure expression over the lattice)
             return 'ASkip'
         if k == 'rangefor' and isinstance(st[1], str):
             if st[2] == ('member', CLS, 'used_by_vp', False) and self.mp is None:
@@ -307,6 +318,11 @@ class ALower:
     def tree_cond(self, c):
         """True: the condition says no covariant class has several direct bases; False: it says one has; None: neither"""
         cov = ('member', ('id', 'cls'), 'covariant_classes', False)
+        if c[0] == 'id' and c[1] in self.conds:
+            return self.conds[c[1]]
+        if c[0] == 'un' and c[1] == '!':
+            t = self.tree_cond(c[2])
+            return None if t is None else not t
 
         def multi(e):
             if e[0] == 'id' and e[1] in self.named:
